@@ -74,6 +74,12 @@ def quick_stacks(seed):
     return stacks, missing
 
 
+def thorough_stacks(seed):
+    """The quick cover first (same seed, same order), then seeded stacks that add any new coverage feature."""
+    stacks, missing = stackgen.cover(seed, budget=300, min_stacks=280)
+    return stacks, missing
+
+
 def fixed_stacks():
     return [stackgen.finish(s) for s in stackgen.FIXED]
 
